@@ -10,6 +10,7 @@ import (
 	"sort"
 	"strconv"
 	"strings"
+	"syscall"
 	"testing"
 
 	"github.com/brutella/hc"
@@ -59,6 +60,26 @@ func child(op string) int {
 	case "save-controller":
 		// a controller's pairing: a name and a public key, no private part
 		if err := db.NewDatabaseWithStorage(st).SaveEntity(db.NewEntity(os.Getenv("VERIF_CHILD_KEY"), val, nil)); err != nil {
+			return 4
+		}
+	case "set-unprivileged":
+		// the process may rewrite its files but not create new ones in the storage directory (a read-only
+		// directory with writable files, seen from an unprivileged user): whatever Set does then, it does atomically
+		for p := dir; len(p) > 1 && strings.HasPrefix(p, os.Getenv("VERIF_CHILD_ROOT")); p = filepath.Dir(p) {
+			os.Chmod(p, 0755)
+		}
+		fis, _ := ioutil.ReadDir(dir)
+		for _, fi := range fis {
+			os.Chmod(filepath.Join(dir, fi.Name()), 0666)
+		}
+		os.Chmod(dir, 0555)
+		if err := syscall.Setgid(65534); err != nil {
+			return 6
+		}
+		if err := syscall.Setuid(65534); err != nil {
+			return 6
+		}
+		if err := st.Set(os.Getenv("VERIF_CHILD_KEY"), val); err != nil {
 			return 4
 		}
 	case "delete":
@@ -629,6 +650,96 @@ func TestC19FirstStart(t *testing.T) {
 		if err != nil {
 			stats.Fail("TestC19FirstStart", err.Error(), variant)
 			t.Fatalf("%v", err)
+		}
+	}
+}
+
+// TestC19Unprivileged: Set in a storage directory where the process can rewrite files but not create them.
+// The library's Set needs a temporary file there and fails; failing is fine, writing in place is not: the
+// write is killed at every crash point it passes and the key must hold its previous value or the new one.
+func TestC19Unprivileged(t *testing.T) {
+	if os.Getuid() != 0 {
+		stats.Case(stats.Hash("unprivileged-skipped"), false, []string{"op:set-unprivileged(skipped:not-root)"}, func() interface{} { return "needs root to drop privileges" })
+		return
+	}
+	scratch := scratchDir()
+	defer func() {
+		filepath.Walk(scratch, func(p string, fi os.FileInfo, err error) error { os.Chmod(p, 0755); return nil })
+		os.RemoveAll(scratch)
+	}()
+	oldV, newV := []byte("AA:BB:CC:DD:EE:FF"), []byte("11:22:33:44:55:66:77")
+	valFile := filepath.Join(scratch, "value.bin")
+	ioutil.WriteFile(valFile, newV, 0644)
+	os.Chmod(valFile, 0644)
+	countFile := filepath.Join(scratch, "count.txt")
+	prepare := func() string {
+		work := filepath.Join(scratch, "work")
+		filepath.Walk(work, func(p string, fi os.FileInfo, err error) error { os.Chmod(p, 0755); return nil })
+		os.RemoveAll(work)
+		st, _ := util.NewFileStorage(work)
+		st.Set("uuid", oldV)
+		st.Set("version", []byte("3"))
+		os.Remove(countFile)
+		ioutil.WriteFile(countFile, nil, 0666)
+		os.Chmod(countFile, 0666)
+		return work
+	}
+	run := func(work string, crashAt int) (int, error) {
+		c := crashCase{Op: "set-unprivileged", Key: "uuid"}
+		cmd := exec.Command(os.Args[0], "-test.run", "^$")
+		cmd.Env = append(os.Environ(), "VERIF_CHILD_OP="+c.Op, "VERIF_CHILD_DIR="+work, "VERIF_CHILD_KEY="+c.Key, "VERIF_CHILD_VALUE="+valFile,
+			"VERIF_CHILD_ROOT="+scratch, "VERIF_CRASH_COUNT="+countFile, fmt.Sprintf("VERIF_CRASH_AT=%d", crashAt), "VERIF_STATS=")
+		err := cmd.Run()
+		if err == nil {
+			return 0, nil
+		}
+		if ee, ok := err.(*exec.ExitError); ok {
+			return ee.ExitCode(), nil
+		}
+		return -1, err
+	}
+	read := func(work string) (string, error) {
+		filepath.Walk(work, func(p string, fi os.FileInfo, err error) error { os.Chmod(p, 0755); return nil })
+		st, _ := util.NewFileStorage(work)
+		b, err := st.Get("uuid")
+		return string(b), err
+	}
+	for p := scratch; len(p) > 1 && p != "/"; p = filepath.Dir(p) {
+		if fi, err := os.Stat(p); err == nil && fi.Mode().Perm()&0001 == 0 {
+			os.Chmod(p, fi.Mode().Perm()|0011)
+		}
+	}
+	work := prepare()
+	rc, err := run(work, 0)
+	if err != nil || rc == 6 || rc == 3 {
+		fmt.Println("VERIF-INCONCLUSIVE: unprivileged child could not run:", rc, err)
+		t.Fatalf("child rc=%d err=%v", rc, err)
+	}
+	cb, _ := ioutil.ReadFile(countFile)
+	points := 0
+	if len(bytes.TrimSpace(cb)) > 0 {
+		points = len(strings.Split(strings.TrimSpace(string(cb)), "\n"))
+	}
+	got, gerr := read(work)
+	stats.Count("crash_points_explored", points)
+	stats.Case(stats.Hash("unprivileged"), true, []string{"op:set-unprivileged"}, func() interface{} {
+		return map[string]interface{}{"op": "Set as an unprivileged user in a directory that allows no new files", "exit_of_complete_run": rc, "crash_points": points, "value_afterwards": got}
+	})
+	fail := func(msg string) {
+		stats.Fail("TestC19Unprivileged", msg, nil)
+		t.Fatal(msg)
+	}
+	if gerr != nil || (got != string(oldV) && got != string(newV)) {
+		fail(fmt.Sprintf("Set without the right to create files (exit %d): afterwards the key holds %q (%v) - neither the previous nor the new value", rc, got, gerr))
+	}
+	for k := 1; k <= points; k++ {
+		work := prepare()
+		if rc, err := run(work, k); err != nil || rc != 77 {
+			fmt.Println("VERIF-INCONCLUSIVE: child did not stop at crash point", k, rc, err)
+			t.Fatalf("crash point %d: rc=%d err=%v", k, rc, err)
+		}
+		if got, gerr := read(work); gerr != nil || (got != string(oldV) && got != string(newV)) {
+			fail(fmt.Sprintf("Set without the right to create files, killed at crash point %d: after the restart the key holds %q (%v) - neither the previous value %q nor the new one", k, got, gerr, oldV))
 		}
 	}
 }
